@@ -25,13 +25,18 @@ let str_result = function
   | RNat k -> "nat:" ^ string_of_int (int_of_nat k)
   | RIds l -> "ids:" ^ str_nats l
   | RRaised ErrMotifLimit -> "raised:motiflimit" | RRaised ErrKey -> "raised:key"
-  | RRaised ErrAssert -> "raised:assert" | RFuel -> "outoffuel"
+  | RRaised ErrAssert -> "raised:assert" | RRaised ErrLimit -> "raised:runtime" | RFuel -> "outoffuel"
+(* outcome syntax: "r" raised, "-" not called, "<len>" or "<len>s" (s = sets known) *)
+let outcome_of_string s =
+  if s = "r" then OutRaised else if s = "-" then OutLen (O, false)
+  else if s.[String.length s - 1] = 's' then OutLen (nat_of_int (int_of_string (String.sub s 0 (String.length s - 1))), true)
+  else OutLen (nat_of_int (int_of_string s), false)
 
 let dump (d : sd) =
   let ns = List.map (fun x ->
-    Printf.sprintf "%s,%d,%d,%d,%s%s%s,%d" (string_of_space x.n_space) (int_of_nat x.n_depth)
+    Printf.sprintf "%s,%d,%d,%d,%s%s%s" (string_of_space x.n_space) (int_of_nat x.n_depth)
       (if x.n_exp then 1 else 0) (if x.n_skip then 1 else 0)
-      (str_tag x.n_cands) (str_tag x.n_seeds) (str_tag x.n_sets) (if x.n_pn then 1 else 0)) d.sd_nodes in
+      (str_tag x.n_cands) (str_tag x.n_seeds) (str_tag x.n_sets)) d.sd_nodes in
   let es = List.map (fun e ->
     Printf.sprintf "%d>%d:%s" (int_of_nat e.e_src) (int_of_nat e.e_dst) (str_spaces e.e_motifs)) d.sd_edges in
   "nodes=" ^ String.concat "|" ns ^ " edges=" ^ (if es = [] then "-" else String.concat "|" es)
@@ -85,6 +90,9 @@ let () =
                  | "target" -> OTarget (space_of_string (a 2), opt_nat (a 3))
                  | "skipmin" -> OSkipToMin (nat_of_int (int_of_string (a 2)), spaces_of_string (a 3))
                  | "skiprem" -> OSkipRemaining (spaces_of_string (a 2))
+                 | "cands" -> OCands (nat_of_int (int_of_string (a 2)), outcome_of_string (a 3))
+                 | "seeds" -> OSeeds (nat_of_int (int_of_string (a 2)), a 3 = "1", outcome_of_string (a 4), outcome_of_string (a 5))
+                 | "sets" -> OSets (nat_of_int (int_of_string (a 2)), outcome_of_string (a 3), outcome_of_string (a 4))
                  | "reclaim" -> OReclaim
                  | "pickle" -> OPickle
                  | s -> failwith ("unknown op " ^ s) in
